@@ -141,6 +141,9 @@ def changed_functions(repo, pid):
 
 
 if __name__ == '__main__':
+    # the digests are of ast.dump(), whose text differs between Python versions: always run under the interpreter the checks use
+    if os.path.exists('/venv/bin/python') and os.path.realpath(sys.executable) != os.path.realpath('/venv/bin/python'):
+        os.execv('/venv/bin/python', ['/venv/bin/python', os.path.abspath(__file__)] + sys.argv[1:])
     repo = '/repo'
     if '--update' in sys.argv:
         ds, byp = resolve_property_functions(repo, os.path.join(VERIF, 'properties.jsonl'))
